@@ -172,7 +172,7 @@ PROPS = {
     "C15": {
         "level": "exploration",
         "technique": "property-based testing: rapid state machine vs per-subscriber FIFO model + generated concurrent runs with schedule-independent order oracle",
-        "level_text": "Generated histories (publish/subscribe/clone/read/close) on the real bus agree step by step with a FIFO reference model, with a sentinel drain making 'nothing extra' deterministic; generated concurrent runs (1-4 publishers, slow/stalled readers, clone and close points) are checked for gap-free, duplicate-free, in-order, common-total-order delivery and for bounded-time completion of Publish/Close. Exploration, not proof: interleavings in the concurrent mode come from the Go scheduler.",
+        "level_text": "Generated histories (publish/subscribe/clone/read/close) on the real bus agree step by step with a FIFO reference model, with a sentinel drain making 'nothing extra' deterministic; generated concurrent runs (1-4 publishers, slow/stalled readers, clone and close points) are checked for gap-free, duplicate-free, in-order, common-total-order delivery and for bounded-time completion of Publish/Close; a third mode closes a subscriber with a generated number of clones while events are published and the bus is closed at a generated point of the tear-down, and requires every Close to return and every Done to fire. Exploration, not proof: interleavings in the concurrent mode come from the Go scheduler.",
         "level_note": "Trusted: rapid, the Go runtime scheduler as interleaving source, 10 s bounded waits as the only liveness signal (a wait that expires is reported as blocking).",
         "floor": 0.2,
         "assumptions": [
@@ -184,6 +184,8 @@ PROPS = {
              "race": {Q: False, T: True}, "timeout": {Q: 300, T: 1500}, "shrinktime": "20s"},
             {"pkg": "pubsub", "run": "^TestVerif_C15_Conc$", "checks": {Q: 150, T: 6000}, "shards": {Q: 2, T: 16},
              "race": {Q: False, T: True}, "timeout": {Q: 300, T: 1500}, "shrinktime": "20s"},
+            {"pkg": "pubsub", "run": "^TestVerif_C15_CloseRace$", "checks": {Q: 150, T: 4000}, "shards": {Q: 2, T: 16},
+             "race": {Q: False, T: False}, "timeout": {Q: 300, T: 1500}, "shrinktime": "1s"},  # a failing case costs a 10 s bounded wait
         ],
     },
 }
